@@ -417,9 +417,9 @@ func c17Run(c *fw.Ctx) fw.Outcome {
 
 func init() {
 	fw.Register(&fw.Property{
-		ID:    "C17",
-		Level: "exploration",
-		Rule: "case = one document (formats cycle over srt, webvtt, ttml, ssa, stl, teletext; per format: generated valid documents from the C01-C06 generators, mutated/truncated invalid ones, the repository's testdata, and a ~200 KiB document) read through a harness io.Reader (+Seeker) whose delivery schedule is controlled and logged: every single split point k (exhaustive for documents up to 4 KiB; beyond that the first 200 (40) offsets, 4096/8192/65536/131072 +-2 from both ends and 150 (30) random ones), every fifth split with the tail delivered together with io.EOF, all-at-once with EOF, one byte at a time (also with EOF on the last byte), 2/3/7 equal parts, random chunk sequences with up to two consecutive zero-length reads, 4096/4095/65537-byte reads on the big documents. Oracle: both fail, or both succeed with reflect.DeepEqual results, compared with the all-at-once delivery. distinct_nontrivial = distinct documents; events.schedules_run and reads_issued count the schedules and Read calls observed.",
+		ID:          "C17",
+		Level:       "exploration",
+		Rule:        "case = one document (formats cycle over srt, webvtt, ttml, ssa, stl, teletext; per format: generated valid documents from the C01-C06 generators, mutated/truncated invalid ones, the repository's testdata, and a ~200 KiB document) read through a harness io.Reader (+Seeker) whose delivery schedule is controlled and logged: every single split point k (exhaustive for documents up to 4 KiB; beyond that the first 200 (40) offsets, 4096/8192/65536/131072 +-2 from both ends and 150 (30) random ones), every fifth split with the tail delivered together with io.EOF, all-at-once with EOF, one byte at a time (also with EOF on the last byte), 2/3/7 equal parts, random chunk sequences with up to two consecutive zero-length reads, 4096/4095/65537-byte reads on the big documents. Oracle: both fail, or both succeed with reflect.DeepEqual results, compared with the all-at-once delivery. distinct_nontrivial = distinct documents; events.schedules_run and reads_issued count the schedules and Read calls observed.",
 		Assumptions: []string{"error text is not compared, only the fact of failing", "the schedule wrapper also implements io.Seeker so that the teletext reader's rewind works identically under every schedule"},
 		Cases:       func(tier string) int64 { return tierN(tier, 96, 1536) },
 		Anchors:     []string{"newScanner", "readNBytes", "ReadFromTTML", "ReadFromTeletext", "newTeletextReader"},
